@@ -311,6 +311,7 @@ namespace plan
     void apply_timeline(const Op &op);
     void finalize();
     std::vector<std::string> units; // RIDDLE text of each compilation unit
+    std::string block_text;         // `ublock`: a block of the problem that is solvable by construction, as a problem of its own
     std::vector<int> unit_cut_mode;
     // an equivalent formulation of the whole problem as one compilation unit: declarations and formulas in their
     // original order, then the independent top-level constraints in a seeded order, optionally with a tautology
@@ -340,8 +341,8 @@ namespace plan
       for (auto &s : m.stmts)
         if (s.k == Stmt::FORMULA || s.k == Stmt::DISJ)
           fs.push_back(&s);
-      if (fs.size() < 2)
-        return std::string();
+      if (fs.size() < 2 || !block_text.empty())
+        return std::string(); // (the planted block states its facts before its goal on purpose: KF-P8)
       // names declared by these statements: `goal g0 = ...`, `fact u1 = ...` (also inside disjuncts)
       std::vector<std::pair<std::string, const Stmt *>> names;
       for (auto *st : fs)
